@@ -1,5 +1,6 @@
 """C03: the signature extracted from wire bytes is what the IP/TCP headers say."""
 from harness import tcpgen as G, wire as W
+from harness.props import c16
 
 RULE = ("byte-level packets built without Scapy: IPv4 IHL 5..15 with random option bytes, IPv6, all 512 flag combinations, "
         "id/DF/MBZ/ECN/flow combinations, option areas from well-formed options with NOP/EOL padding, hostile option areas "
@@ -59,11 +60,28 @@ def generate(R, tier):
             spec["dport"] = R.choice([0, 1, 443, 65535, R.randrange(65536)])
         elif R.random() < 0.5:
             spec["sport"], spec["dport"] = 53, R.choice([40000, 53])
-        yield {"stream": st, "syn_mss": R.choice([0, 0, 1460, 5]), "spec": spec}
+        c = {"stream": st, "syn_mss": R.choice([0, 0, 1460, 5]), "spec": spec}
+        if st == "well-formed" and not spec.get("ipopts") and not spec.get("frag") and not spec.get("mf") and c16.simple_opts(spec["opts"]) and R.random() < 0.25:
+            # the packet is dissected from the wire and THEN edited by its owner (header fields set on the Scapy object): what is
+            # extracted must be what the headers say NOW (only for option areas Scapy re-serialises byte for byte)
+            c["stream"] = "edited-after-dissection"
+            c["edit"] = {"ttl": R.choice([1, 64, 128, 255, R.randrange(256)]), "win": R.choice([0, 1, 5840, 65535, R.randrange(65536)]),
+                         "df": R.random() < 0.5, "id": R.choice([0, 1, 4660])}
+        yield c
+
+
+def edited(c):
+    spec = c["spec"]
+    if "edit" in c:
+        e = c["edit"]
+        spec = dict(spec, ttl=e["ttl"], win=e["win"])
+        if W.full(spec)["v"] == 4:
+            spec.update(df=e["df"], id=e["id"])
+    return spec
 
 
 def model_line(c):
-    raw = W.build(c["spec"])
+    raw = W.build(edited(c))
     return "extract %d %d %s" % (W.full(c["spec"])["v"], c["syn_mss"], raw.hex() or "-")
 
 
@@ -75,6 +93,15 @@ def impl_init():
 
     def impl(c):
         pkt = U.scapy_from_spec(c["spec"])
+        if "edit" in c:
+            e = c["edit"]
+            ip = pkt.getlayer("IP") or pkt.getlayer("IPv6")
+            if ip.version == 4:
+                ip.ttl, ip.id = e["ttl"], e["id"]
+                ip.flags = (int(ip.flags) | 2) if e["df"] else (int(ip.flags) & ~2)
+            else:
+                ip.hlim = e["ttl"]
+            pkt.getlayer("TCP").window = e["win"]
         try:
             k = parse_packet(pkt)
         except PacketError:
